@@ -438,6 +438,102 @@ Proof.
 Qed.
 
 (* ------------------------------------------------------------------------------------ *)
+(* (2b) a buffered stored timeline as subtractor / complement source.  The buffered events
+   must stay between the sentinels ([wf_ivl] of the shifted event). *)
+
+Lemma shift_fstart_mono before after x y :
+  0 <= before -> NEG_INF <= fstart (buf_shift before after y) ->
+  fstart x <= fstart y -> fstart (buf_shift before after x) <= fstart (buf_shift before after y).
+Proof.
+  intros Hb Hy H. unfold fstart in *. rewrite !buf_shift_st in *.
+  destruct (st x) as [u|], (st y) as [v|]; cbn [addO] in *; lia.
+Qed.
+
+Lemma shift_fend_mono before after x y :
+  0 <= after -> fend (buf_shift before after x) <= POS_INF ->
+  fend x <= fend y -> fend (buf_shift before after x) <= fend (buf_shift before after y).
+Proof.
+  intros Ha Hx H. unfold fend in *. rewrite !buf_shift_en in *.
+  destruct (en x) as [u|], (en y) as [v|]; cbn [addO] in *; lia.
+Qed.
+
+Section BufStored.
+  Variable env : fenv.
+  Variable evs : list ivl.
+  Variables before after : Z.
+  Hypothesis Hb : 0 <= before.
+  Hypothesis Ha : 0 <= after.
+  Hypothesis Hwf : Forall wf_ivl evs.
+  Hypothesis Hsh : Forall (fun x => wf_ivl (buf_shift before after x)) evs.
+
+  Let e := Buf (Stored evs) before after.
+
+  Lemma buf_stored_elems a b x :
+    In x (filter (in_range (addO a (- after)) (addO b before)) (sl_build evs)) ->
+    In x evs /\ wf_ivl x /\ wf_ivl (buf_shift before after x).
+  Proof.
+    intro Hx. apply filter_In in Hx as [Hx _]. apply (proj1 (sl_build_in _ _)) in Hx.
+    rewrite Forall_forall in Hwf, Hsh. auto.
+  Qed.
+
+  Lemma buf_stored_fwd_ok a b : fwd_ok env e a b.
+  Proof.
+    unfold fwd_ok, e. rewrite fetch_buf_stored_filter.
+    set (l := filter (in_range (addO a (- after)) (addO b before)) (sl_build evs)).
+    split; [|split].
+    - apply Forall_map_intro, Forall_forall. intros x Hx. apply (buf_stored_elems a b x Hx).
+    - apply sorted_start_pw, pairwiseP_map.
+      assert (Hs : sorted_start l)
+        by (apply sorted_start_filter, sorted_key_sorted_start, sl_build_sorted).
+      apply sorted_start_pw in Hs. revert Hs. apply pairwiseP_impl. intros x y _ Hy Hxy.
+      apply shift_fstart_mono; [exact Hb| |exact Hxy].
+      destruct (buf_stored_elems a b y Hy) as (_ & _ & (W1 & _)). exact W1.
+    - intros t Ht. cbn [ref]. rewrite (filter_pos_len_all evs).
+      2:{ intros x Hx. rewrite Forall_forall in Hwf. destruct (Hwf x Hx) as (_ & W & _). unfold pos_len. lia. }
+      apply covers_ext_in. intros y Hy. rewrite !in_map_iff. split.
+      + intros (x & <- & Hx). exists x. split; [reflexivity|]. apply (buf_stored_elems a b x Hx).
+      + intros (x & <- & Hx). exists x. split; [reflexivity|]. apply filter_In.
+        split; [apply sl_build_in; exact Hx|].
+        destruct (in_range (addO a (- after)) (addO b before) x) eqn:E; [reflexivity|].
+        pose proof (widened_range_complete before after a b x Hb Ha E) as Hr.
+        unfold inside in Hy. unfold inw in Ht. lia.
+  Qed.
+
+  Lemma buf_stored_sub_ok : sub_ok env e.
+  Proof. intros a b _. apply buf_stored_fwd_ok. Qed.
+
+  (* the reverse direction needs the ends to be monotone: no stored event nested in another *)
+  Hypothesis Hch : chain evs.
+
+  Lemma buf_stored_bwd_ok a b : bwd_ok env e a b.
+  Proof.
+    destruct (buf_stored_fwd_ok a b) as (W & _ & C). unfold bwd_ok, e in *.
+    rewrite fetch_buf_stored_rev. split; [|split].
+    - apply Forall_forall. intros x Hx. apply in_rev in Hx. exact (proj1 (Forall_forall _ _) W x Hx).
+    - apply negate_sorted_iff_monotone_ends_gen. unfold mono_ends_desc. apply pairwiseP_rev.
+      rewrite fetch_buf_stored_filter. apply pairwiseP_map.
+      set (l := filter (in_range (addO a (- after)) (addO b before)) (sl_build evs)).
+      assert (Hs : sortedP l) by (apply sortedP_filter, sorted_key_P, sl_build_sorted).
+      assert (Hs' : pairwiseP (fun x y => key_le x y = true) l).
+      { clear - Hs. induction l as [|x r IH]; [exact I|]. destruct Hs as [H1 H2]. split; auto. }
+      revert Hs'. apply pairwiseP_impl. intros x y Hx Hy K.
+      destruct (buf_stored_elems a b x Hx) as (Ix & _ & (_ & _ & W3 & _)).
+      destruct (buf_stored_elems a b y Hy) as (Iy & _ & _).
+      apply shift_fend_mono; [exact Ha|exact W3|].
+      unfold key_le in K. destruct (Z_lt_dec (fstart x) (fstart y)) as [L|L]; [|lia].
+      exact (Hch x y Ix Iy L).
+    - intros t Ht. rewrite covers_rev. exact (C t Ht).
+  Qed.
+
+  Theorem C16_complement_buf_stored p :
+    NEG_INF < p -> p + 1 < POS_INF ->
+    overlapping env (Compl e) p = ov_expected env (Compl e) p.
+  Proof.
+    intros Hp1 Hp2. apply compl_overlapping_general; auto using buf_stored_fwd_ok, buf_stored_bwd_ok.
+  Qed.
+End BufStored.
+
+(* ------------------------------------------------------------------------------------ *)
 (* (3) the class covered, and the oracle *)
 
 Inductive ovdom (env : fenv) (p : Z) : expr -> Prop :=
@@ -541,8 +637,24 @@ Proof.
   vm_compute. split; reflexivity.
 Qed.
 
+(* merge_within has no [ref] in Spec/Sets.v (its result depends on the window, see C17), so
+   [ov_expected] says nothing about it; against the unbounded evaluation itself the base
+   implementation is wrong there too: only the events meeting [p, p+1) are merged.
+   T = {[0,2), [3,5), [6,9)}, gap 1: the unbounded result is the single interval [0,9), but
+   overlapping(0) = [0,2) and overlapping(4) = [3,5). *)
+Theorem C16_merge_within_refuted :
+  exists env e,
+    fetch env e None None false = [mkI (Some 0) (Some 9) (Rich 1)] /\
+    overlapping env e 0 = [mkI (Some 0) (Some 2) (Rich 1)] /\
+    overlapping env e 4 = [mkI (Some 3) (Some 5) (Rich 2)].
+Proof.
+  exists [], (MergeW (Stored [mkI (Some 0) (Some 2) (Rich 1); mkI (Some 3) (Some 5) (Rich 2);
+                              mkI (Some 6) (Some 9) (Rich 3)]) 1).
+  vm_compute. repeat split; reflexivity.
+Qed.
+
 (* ------------------------------------------------------------------------------------ *)
-(* non-vacuity: concrete instances of every hypothesis *)
+(* non-vacuity: concrete instances of every premise *)
 
 Module Examples2.
   Definition ev (s e : Z) (id : N) : ivl := mkI (Some s) (Some e) (Rich id).
@@ -619,6 +731,40 @@ Module Examples2.
   Qed.
   Example nested_instance : mset_eqb (overlapping env0 nested 10) (ov_expected env0 nested 10) = true.
   Proof. apply C16_nested_expected; [apply p_ok|apply p_ok|exact nested_dom]. Qed.
+
+  (* through the two corollaries *)
+  Example compl_instance2' : overlapping env0 (Compl cs2) 10 = ov_expected env0 (Compl cs2) 10.
+  Proof.
+    apply C16_complement_inter; [apply srgood_sound; vm_compute; reflexivity|apply p_ok|apply p_ok].
+  Qed.
+  Example compl_instance1' : overlapping env0 (Compl cs1) 10 = ov_expected env0 (Compl cs1) 10.
+  Proof.
+    apply C16_complement_dj; [apply srgood_sound; vm_compute; reflexivity| |apply p_ok|apply p_ok].
+    apply (proj2 (sgood_sound env0 cs1 ltac:(vm_compute; reflexivity))). vm_compute. reflexivity.
+  Qed.
+
+  (* buffered stored timelines: as complement source and as subtractor *)
+  Lemma D1_wf : Forall wf_ivl D1 /\ Forall (fun x => wf_ivl (buf_shift 1 2 x)) D1.
+  Proof.
+    split; repeat constructor; unfold wf_ivl, fstart, fend, NEG_INF, POS_INF; cbn [st en ev buf_shift set_span addO]; lia.
+  Qed.
+  Example compl_buf_instance :
+    overlapping env0 (Compl (Buf (Stored D1) 1 2)) 12 = ov_expected env0 (Compl (Buf (Stored D1) 1 2)) 12.
+  Proof.
+    apply C16_complement_buf_stored;
+      first [lia|apply D1_wf|apply chainb_ok; vm_compute; reflexivity|unfold NEG_INF, POS_INF; lia].
+  Qed.
+  Example compl_buf_value :
+    overlapping env0 (Compl (Buf (Stored D1) 1 2)) 12 = [mkI (Some 11) (Some 14) Plain].
+  Proof. vm_compute. reflexivity. Qed.
+  Example diff_buf_sub_instance p :
+    Permutation (overlapping env0 (Diff src [Buf (Stored D1) 1 2; Stored B]) p)
+                (ov_expected env0 (Diff src [Buf (Stored D1) 1 2; Stored B]) p).
+  Proof.
+    apply C16_difference_general; [exact src_leaf|exact src_ref_ok|].
+    constructor; [apply buf_stored_sub_ok; try lia; apply D1_wf|].
+    constructor; [apply good_sub_ok, sgood_good; vm_compute; reflexivity|constructor].
+  Qed.
 End Examples2.
 
 Print Assumptions good_sub_ok.
@@ -636,12 +782,15 @@ Print Assumptions C16_complement_general.
 Print Assumptions C16_complement_dj.
 Print Assumptions C16_complement_inter.
 Print Assumptions C16_complement_union_stored.
+Print Assumptions buf_stored_sub_ok.
+Print Assumptions C16_complement_buf_stored.
 Print Assumptions C16_nested_perm.
 Print Assumptions C16_nested_expected.
 Print Assumptions C16_union_of_complement_refuted.
 Print Assumptions C16_inter_of_complement_refuted.
 Print Assumptions C16_union_of_difference_refuted.
 Print Assumptions C16_filter_of_difference_refuted.
+Print Assumptions C16_merge_within_refuted.
 Print Assumptions Examples2.diff_instance.
 Print Assumptions Examples2.compl_instance1.
 Print Assumptions Examples2.nested_instance.
